@@ -2,7 +2,7 @@
    logged per sender, deliveries refer to logged outputs (optionally through a symbolic mutation).
    The Go harness executes the same scenario on real Conversations and prints, per step, the same
    observation; Corr/ScenDispatch compares them. *)
-From OTR Require Import Go.Base Gen.Consts Corr.Val Proto.SmpTypes Proto.Keys Proto.Smp Proto.Conv.
+From OTR Require Import Go.Base Gen.Consts Corr.Val Proto.SmpTypes Proto.Keys Proto.Smp Proto.Conv Proto.Secrets.
 From RecordUpdate Require Import RecordSet.
 Import RecordSetNotations.
 Open Scope N_scope.
@@ -150,7 +150,9 @@ Inductive sop : Type :=
 | OSendTLVs (who : N) (now : N) (tlvs : list stlv)
 (* party [sender] sends, through its own session, the SMP TLVs found in output [idx] of party [src], after
    replacing value number [field] by the boundary value class [cls] (cls = 99: unchanged; cls >= 20: drop cls-20 values) *)
-| OForwardSmp (src : N) (idx : N) (sender : N) (now : N) (field : N) (cls : N).
+| OForwardSmp (src : N) (idx : N) (sender : N) (now : N) (field : N) (cls : N)
+(* no call: observe which secrets party [who] still holds *)
+| OProbe (who : N).
 
 (* ---------------- observations ---------------- *)
 Definition tag_class (s : sys) (t from : N) : N :=
@@ -250,6 +252,7 @@ Definition run_op (s : sys) (o : sop) : sys * val :=
   | OForwardSmp src idx sender now field cls =>
       let w := nth (N.to_nat idx) (nth (N.to_nat src - 1) (s_outs s) []) junk_wire in
       apply_call s sender now (CSendTLVs (map (mut_smp_tlv field cls) (smp_tlvs_of w)))
+  | OProbe who => (s, secrets_obs (nth_conv s who))
   end.
 
 Fixpoint run_ops (s : sys) (ops : list sop) : list val :=
